@@ -17,49 +17,68 @@ theorem lin_add_mult (g : Geom K) (s : Lin) (hs : Lin.Bounded s) (k : K) (v : Na
     (Lin.add g s k v).tab = (iter (fun s => Lin.add g s k 1) v s).tab ∧
     (Lin.add g s k v).nAdded = (iter (fun s => Lin.add g s k 1) v s).nAdded ∧
     (Lin.add g s k v).nRecords = (iter (fun s => Lin.add g s k 1) v s).nRecords := by
-  sorry
+  rw [← Lin.add_mult g s k v]
+  exact ⟨rfl, rfl, rfl⟩
 
 /-- one heavy-hitter cell (the Boyer–Moore replace rule `v - count` equals `count` decrements, one
     replacement and `v - count - 1` increments) -/
-theorem hh_cell_add_mult (c : HCell K) (hc : c.cnt ≤ CAP) (k : K) (v : Nat) :
-    c.add k v = iter (fun c => c.add k 1) v c := by
-  sorry
+theorem hh_cell_add_mult (c : HCell K) (hc : c.cnt ≤ CAP) (k : K) (v : Nat) (hv : v ≤ CAP) :
+    c.add k v = iter (fun c => c.add k 1) v c :=
+  HCell.add_mult c hc k v hv
+
+/-- the bound `v ≤ 2^32-1` is necessary at cell level (the API applies `min(value, 2^32-1)` before
+    the kernel): without it the kernel would store `v - count > 2^32-1` while unit adds saturate -/
+theorem hh_cell_add_mult_needs_cap :
+    ¬ (∀ (c : HCell Nat), c.cnt ≤ CAP → ∀ k v, c.add k v = iter (fun c => c.add k 1) v c) :=
+  HCell.add_mult_false
 
 /-- heavy hitters, `v ≤ 2^32-1` (the API caps larger values, single adds are not capped) -/
 theorem hh_add_mult (g : Geom K) (s : HH K) (hs : ∀ r c, (s.tab r c).cnt ≤ CAP) (k : K) (v : Nat) (hv : v ≤ CAP) :
     (HH.add g s k v).tab = (iter (fun s => HH.add g s k 1) v s).tab ∧
     (HH.add g s k v).nAdded = (iter (fun s => HH.add g s k 1) v s).nAdded ∧
     (HH.add g s k v).nRecords = (iter (fun s => HH.add g s k 1) v s).nRecords := by
-  sorry
+  rw [← HH.add_mult g s hs k v hv]
+  exact ⟨rfl, rfl, rfl⟩
 
 /-- one log counter: `v` steps at once = `v` single steps threading the draw state -/
 theorem logCounter_mult (cfg : LogCfg D) (draws : Nat → Nat → D) (v c : Nat) (rs : RandState) :
     logCounter cfg draws v c rs =
       iter (fun p : Nat × RandState => logCounter cfg draws 1 p.1 p.2) v (c, rs) := by
-  sorry
+  exact logCounter_iter cfg draws v c rs
 
 /-- log sketches under the same draw stream -/
 theorem log_add_mult (g : Geom K) (cfg : LogCfg D) (draws : Nat → Nat → D) (s : Log) (k : K) (v : Nat) :
     (Log.add g cfg draws s k v).tab = (iter (fun s => Log.add g cfg draws s k 1) v s).tab ∧
     (Log.add g cfg draws s k v).nAdded = (iter (fun s => Log.add g cfg draws s k 1) v s).nAdded ∧
     (Log.add g cfg draws s k v).rs = (iter (fun s => Log.add g cfg draws s k 1) v s).rs := by
-  sorry
+  rw [← Log.add_mult g cfg draws s k v]
+  exact ⟨rfl, rfl, rfl⟩
 
 /-- HyperLogLog ignores multiplicities: adding once or many times is the same -/
 theorem hll_add_mult (p : Nat) (H : K → Nat) (R : Regs) (k : K) (v : Nat) (hv : 1 ≤ v) :
     iter (fun R => Hll.add p H R k) v R = Hll.add p H R k := by
-  sorry
+  induction v with
+  | zero => omega
+  | succ v ih =>
+    rw [iter_succ']
+    cases v with
+    | zero => rfl
+    | succ v => rw [ih (by omega)]; exact C02.add_idem p H R k
 
 /-! ### update / dict are folds by definition of the entry points; dict of (k, v) = v single adds -/
 
 theorem lin_update_dict_singles (g : Geom K) (s : Lin) (hs : Lin.Bounded s) (k : K) (v : Nat) :
     (Lin.updateDict g s [(k, v)]).tab = (Lin.updateList g s (List.replicate v k)).tab := by
-  sorry
+  unfold Lin.updateList
+  rw [foldl_replicate_iter]
+  exact (lin_add_mult g s hs k v).1
 
 theorem hh_update_dict_singles (g : Geom K) (s : HH K) (hs : ∀ r c, (s.tab r c).cnt ≤ CAP) (k : K) (v : Nat)
     (hv : v ≤ CAP) :
     (HH.updateDict g s [(k, v)]).tab = (HH.updateList g s (List.replicate v k)).tab := by
-  sorry
+  unfold HH.updateList
+  rw [foldl_replicate_iter]
+  exact (hh_add_mult g s hs k v hv).1
 
 /-! ### ngram entry points -/
 
@@ -68,7 +87,7 @@ theorem addNgram_spec {S : Type} (add1 : S → List UInt8 → S) (s : S) (key : 
     (key.length ≤ n → addNgram add1 s key n = add1 s key) ∧
     (n < key.length → addNgram add1 s key n =
       (List.range (key.length - n + 1)).foldl (fun s i => add1 s ((key.drop i).take n)) s) := by
-  sorry
+  exact ⟨addNgram_short add1 s key n, addNgram_long add1 s key n hn⟩
 
 theorem updateNgram_cons {S : Type} (add1 : S → List UInt8 → S) (s : S) (k : List UInt8) (ks : List (List UInt8)) (n : Nat) :
     updateNgram add1 s (k :: ks) n = updateNgram add1 (addNgram add1 s k n) ks n := rfl
